@@ -4,3 +4,6 @@ import TlxVerif.Props.C08
 #print axioms TlxVerif.C08.checker_sound
 #print axioms TlxVerif.C08.checker_complete
 #print axioms TlxVerif.C08.certified_run_is_the_partition
+#print axioms TlxVerif.C08.partition_exists_for_every_rank
+#print axioms TlxVerif.C08.partition_rank_total
+#print axioms TlxVerif.C08.ends_are_partition_at_total
